@@ -280,15 +280,19 @@ def r18_3(ctx: Ctx):
         ok = all(is_self_attr(s, "active_non_leaves", selfn) for s in srcs)
         obs.append(ctx.ob("R18.3", f, loop, status=OK if ok else VIOLATION, detail="flags recomputed over the active non-leaf demes" if ok else f"the flag loop ranges over `{', '.join(norm(s) for s in srcs)}`, not over the active non-leaf demes", construct="range:" + norm(loop.iter)))
     anl = ctx.prog.own_method("DemeTree", "active_non_leaves")
-    txt = norm(anl.node)
-    tn = txt.replace(" ", "")
-    asn = anl.self_name()
-    has_filter = "is_active" in tn
-    good_range = any(k in tn for k in ("height-1", "levels[:-1]", f"len({asn}.levels)-1", f"len({asn}._levels)-1"))
-    bad_range = any(k in tn for k in (f"range({asn}.height)", f"range(len({asn}.levels))", f"range(len({asn}._levels))", f"in{asn}.levels)", f"in{asn}._levels)", f"enumerate({asn}.levels)", f"enumerate({asn}._levels)", f"{asn}.all_demes", f"{asn}.active_demes"))
-    if has_filter and good_range and not bad_range:
+    from .common import deme_listing
+
+    dl = deme_listing(ctx, "DemeTree", "active_non_leaves")
+    unknown_f = [x for x in dl["filters"] if x.startswith("?")]
+    if dl["levels"] == 0 and unknown_f and not any(k in x for x in unknown_f for k in ("level", "height", "leaves")):
+        # every level is enumerated and nothing in the extra conditions looks at the level: leaf demes are not excluded by
+        # their level, and demes of non-leaf levels are dropped by a condition on something else
+        st_anl = VIOLATION
+    elif dl["levels"] is None or unknown_f:
+        st_anl = INCONCLUSIVE
+    elif dl["levels"] == -1 and dl["filters"] == {"is_active"}:
         st_anl = OK
-    elif ("active" not in tn.split(":", 1)[-1].replace("active_non_leaves", "")) or (bad_range and not good_range):
+    elif dl["levels"] != -1 or "is_active" not in dl["filters"] or "not is_active" in dl["filters"]:
         st_anl = VIOLATION
     else:
         st_anl = INCONCLUSIVE
